@@ -19,6 +19,7 @@ pub mod c15;
 pub mod c16;
 pub mod c17;
 pub mod c18;
+pub mod c19;
 
 use crate::runner::{replay_prop, run_prop, Tier};
 
@@ -31,6 +32,7 @@ macro_rules! dispatch {
             "C16" => $f(&c16::C16, $($arg),*),
             "C17" => $f(&c17::C17, $($arg),*),
             "C18" => $f(&c18::C18, $($arg),*),
+            "C19" => $f(&c19::C19, $($arg),*),
             "C03" => $f(&c03::C03, $($arg),*),
             "C04" => $f(&c04::C04, $($arg),*),
             "C05" => $f(&c05::C05, $($arg),*),
